@@ -99,7 +99,7 @@ func (t *Tokenizer) Load(r io.Reader, handler TokenHandler) (err error) {
 	eof := false
 	var cnt int
 	cnt, err = r.Read(buf)
-	for err == nil && 0 < cnt && cnt < 4 && buf[0] == 0xEF { // a BOM has to be seen whole
+	for err == nil && (cnt == 0 || (cnt < 4 && buf[0] == 0xEF)) { // a BOM has to be seen whole; an empty read decides nothing
 		var n int
 		n, err = r.Read(buf[cnt:])
 		cnt += n
